@@ -28,6 +28,8 @@ var c11States = []string{"idle", "idle-after-requests", "partial-frame", "tls-no
 	"starttls-stalled",        // asks for a huge answer AND StartTLS, never reads: a handshake is pending behind a parked writer
 	"starttls-no-hello",       // got the StartTLS response but never starts the handshake
 	"not-reading-pipelined",   // pipelines five requests with large answers and never reads: several handlers queue on the connection's writer
+	"tls-not-reading",         // inside a TLS session (TLS listener): asks for a huge answer and never reads it - a handler is parked in tls.Conn.Write
+	"starttls-not-reading",    // the same inside a session upgraded with StartTLS
 }
 
 type c11Scenario struct {
@@ -73,6 +75,7 @@ func c11Run(index int, raw json.RawMessage) lab.WorkerResult {
 }
 
 func c11RunOnce(s c11Scenario, settle time.Duration) lab.WorkerResult {
+	bound := c11Bound
 	main, _, err := lab.SharedPKI()
 	if err != nil {
 		return lab.WorkerResult{Skipped: err.Error()}
@@ -184,6 +187,24 @@ func c11RunOnce(s c11Scenario, settle time.Duration) lab.WorkerResult {
 				return skip("tls request unanswered: " + err.Error())
 			}
 			conns[len(conns)-1] = tc
+		case "tls-not-reading", "starttls-not-reading":
+			if stt == "starttls-not-reading" {
+				cl := lab.Wrap(raw)
+				_ = cl.Send(ReqSpec{Req: wire.Req{Kind: "extended", MsgID: base + 502, ExtName: []byte(wire.OIDStartTLS)}}.Bytes())
+				if _, err := cl.Next(10 * time.Second); err != nil {
+					return skip("starttls response missing: " + err.Error())
+				}
+			}
+			tc := tls.Client(raw, main.ClientTLS(false))
+			_ = tc.SetDeadline(time.Now().Add(10 * time.Second))
+			if err := tc.Handshake(); err != nil {
+				return skip("tls handshake: " + err.Error())
+			}
+			_ = tc.SetDeadline(time.Time{})
+			if _, err := tc.Write(simpleReq("search", base+500).Bytes()); err != nil {
+				return skip("tls request: " + err.Error())
+			}
+			conns[len(conns)-1] = tc
 		case "busy-pipelining":
 			wg.Add(2)
 			go func() { // writer: requests as fast as it can
@@ -282,7 +303,7 @@ func c11RunOnce(s c11Scenario, settle time.Duration) lab.WorkerResult {
 		}
 	}
 	lateDone = func() { lateWg.Wait() }
-	deadline := time.After(c11Bound)
+	deadline := time.After(bound)
 	// an early look: what is a Stop that needs more than 2 s waiting for? (goes into the diagnostics)
 	early := make(chan string, 1)
 	earlyStop := make(chan struct{})
@@ -421,14 +442,14 @@ func c11RunOnce(s c11Scenario, settle time.Duration) lab.WorkerResult {
 			// Stop did return, in bounded time: the statement holds for this scenario. That it needed seconds where
 			// milliseconds are normal is recorded (class, and the diagnostics kept by the parent) but it is no violation.
 			closeAll()
-			return lab.WorkerResult{OK: true, Delivered: true, Msg: fmt.Sprintf("late: Stop returned only about %v after it was called (expected within %v): %s\ncensus at %v:\n%s%s", (c11Bound + 500*time.Millisecond + time.Since(waited)).Round(100*time.Millisecond), c11Bound, desc, c11Bound, firstKey, diag)}
+			return lab.WorkerResult{OK: true, Delivered: true, Msg: fmt.Sprintf("late: Stop returned only about %v after it was called (expected within %v): %s\ncensus at %v:\n%s%s", (bound + 500*time.Millisecond + time.Since(waited)).Round(100*time.Millisecond), bound, desc, bound, firstKey, diag)}
 		}
 		if _, dump2 := lab.StableCensus(200 * time.Millisecond); lab.Describe(dump2, 10) != firstKey {
 			dump = dump2
 		}
 		closeAll()
 		return lab.WorkerResult{OK: false, FP: "stop-hang:" + strings.Join(names, "+"), Delivered: true,
-			Msg: fmt.Sprintf("%s: Server.Stop did not return within %v (stable goroutine census at %v, two identical snapshots 0.5 s apart; still not returned %v later):\n%s%s", desc, c11Bound+15*time.Second, c11Bound, 15*time.Second, lab.Describe(dump, 10), diag)}
+			Msg: fmt.Sprintf("%s: Server.Stop did not return within %v (stable goroutine census at %v, two identical snapshots 0.5 s apart; still not returned %v later):\n%s%s", desc, bound+15*time.Second, bound, 15*time.Second, lab.Describe(dump, 10), diag)}
 	}
 	if stopErr != nil {
 		closeAll()
@@ -442,9 +463,9 @@ func c11RunOnce(s c11Scenario, settle time.Duration) lab.WorkerResult {
 				closeAll()
 				return lab.WorkerResult{OK: false, FP: "run-error-after-stop", Msg: fmt.Sprintf("%s: Run returned %v", desc, err), Delivered: true}
 			}
-		case <-time.After(c11Bound):
+		case <-time.After(bound):
 			closeAll()
-			return lab.WorkerResult{OK: false, FP: "run-not-returned", Msg: fmt.Sprintf("%s: Run did not return within %v after Stop returned", desc, c11Bound), Delivered: true}
+			return lab.WorkerResult{OK: false, FP: "run-not-returned", Msg: fmt.Sprintf("%s: Run did not return within %v after Stop returned", desc, bound), Delivered: true}
 		}
 	}
 	closeAll()
@@ -515,7 +536,7 @@ func c11Exec(c c11Batch, st *lab.Stats) *lab.Fail {
 func TestC11Enum(t *testing.T) {
 	lab.SkipIfReplayOther(t, "enum")
 	st := lab.GetStats("C11", "enum")
-	st.SetRule("complete enumeration: no connection, every single connection state of {idle, idle after served requests, first k bytes of a frame sent, TCP connected to a TLS listener without / with a partial ClientHello, idle inside a TLS session, pipelining requests as fast as it can, requesting a 13 MB answer and never reading, the same followed by an Unbind, the same together with a StartTLS request, StartTLS answered but handshake never started} and every unordered pair of states, each with and without a concurrent second Stop, single states also with one-hour read/write timeouts configured on the server; plus 4 / 32 silent clients per dialer that connect WHILE Stop is being called (plain and TLS listeners, with and without timeouts), and storms of 150 start / connect-flood / Stop cycles per scenario with no settling pause (Stop racing the accept loop); clients never close by themselves; executed in worker child processes; oracle = Stop returns and Run returns nil in bounded time: a Stop still waiting after 20 s with the same goroutines parked in the same places as at 5 s (two identical censuses 0.5 s apart) is a hang; one that needs between 5 and 20 s is counted as late (class) and its diagnostics are kept; a healthy server needs milliseconds; non-trivial = >= 1 connection open at Stop; distinct by scenario")
+	st.SetRule("complete enumeration: no connection, every single connection state of {idle, idle after served requests, first k bytes of a frame sent, TCP connected to a TLS listener without / with a partial ClientHello, idle inside a TLS session, pipelining requests as fast as it can, requesting a 13 MB answer and never reading, the same followed by an Unbind, the same together with a StartTLS request, StartTLS answered but handshake never started, inside a TLS session (TLS listener, or upgraded with StartTLS) requesting a 13 MB answer and never reading} and every unordered pair of states, each with and without a concurrent second Stop, single states also with one-hour read/write timeouts configured on the server; plus 4 / 32 silent clients per dialer that connect WHILE Stop is being called (plain and TLS listeners, with and without timeouts), and storms of 150 start / connect-flood / Stop cycles per scenario with no settling pause (Stop racing the accept loop); clients never close by themselves; executed in worker child processes; oracle = Stop returns and Run returns nil in bounded time: a Stop still waiting after 20 s with the same goroutines parked in the same places as at 5 s (two identical censuses 0.5 s apart) is a hang; one that needs between 5 and 20 s is counted as late (class) and its diagnostics are kept; a healthy server needs milliseconds; non-trivial = >= 1 connection open at Stop; distinct by scenario")
 	defer lab.FlushAll()
 	if lab.ReplayInto(t, st, "enum", c11Exec) {
 		return
